@@ -50,11 +50,26 @@ func makeNamedType(name string, underlying types.Type) *types.Named {
 }
 
 func makeReflectValue(t types.Type, v value) value {
-	return structure{rtype{t}, v, (*value)(nil)}
+	return structure{rtype{t}, v, (*value)(nil), false}
 }
 
 func makeReflectValueAddr(t types.Type, addr *value) value {
-	return structure{rtype{t}, *addr, addr}
+	return structure{rtype{t}, *addr, addr, false}
+}
+
+// pointer value &(*addr) of type t, carrying the read-only flag
+func makeReflectValueRO(t types.Type, addr *value, ro bool) value {
+	return structure{rtype{t}, addr, (*value)(nil), ro}
+}
+
+// rVRO: value was reached through an unexported field (Interface() panics)
+func rVRO(v value) bool {
+	s := v.(structure)
+	if len(s) < 4 {
+		return false
+	}
+	b, _ := s[3].(bool)
+	return b
 }
 
 func rV2A(v value) *value {
@@ -393,9 +408,19 @@ func ext۰reflect۰Value۰Index(fr *frame, args []value) value {
 	t := rV2T(args[0]).t.Underlying()
 	switch v := rV2V(args[0]).(type) {
 	case array:
-		return makeReflectValue(t.(*types.Array).Elem(), v[i])
+		if i < 0 || i >= len(v) {
+			panic(targetPanic{iface{fr.i.runtimeErrorString, "reflect: array index out of range"}})
+		}
+		r := makeReflectValue(t.(*types.Array).Elem(), v[i]).(structure)
+		r[3] = rVRO(args[0])
+		return r
 	case []value:
-		return makeReflectValueAddr(t.(*types.Slice).Elem(), &v[i])
+		if i < 0 || i >= len(v) {
+			panic(targetPanic{iface{fr.i.runtimeErrorString, "reflect: slice index out of range"}})
+		}
+		r := makeReflectValueAddr(t.(*types.Slice).Elem(), &v[i]).(structure)
+		r[3] = rVRO(args[0])
+		return r
 	default:
 		panic(fmt.Sprintf("reflect.(Value).Index(%T)", v))
 	}
@@ -422,13 +447,20 @@ func ext۰reflect۰Value۰Elem(fr *frame, args []value) value {
 	// Signature: func (v reflect.Value) reflect.Value
 	switch x := rV2V(args[0]).(type) {
 	case iface:
-		return makeReflectValue(x.t, x.v)
+		if x.t == nil {
+			return structure{rtype{nil}, nil, (*value)(nil), false}
+		}
+		r := makeReflectValue(x.t, x.v).(structure)
+		r[3] = rVRO(args[0])
+		return r
 	case *value:
 		et := rV2T(args[0]).t.Underlying().(*types.Pointer).Elem()
 		if x == nil {
-			return structure{rtype{nil}, nil, (*value)(nil)} // invalid Value
+			return structure{rtype{nil}, nil, (*value)(nil), false} // invalid Value
 		}
-		return makeReflectValueAddr(et, x)
+		r := makeReflectValueAddr(et, x).(structure)
+		r[3] = rVRO(args[0])
+		return r
 	default:
 		panic(fmt.Sprintf("reflect.(Value).Elem(%T)", x))
 	}
@@ -518,7 +550,20 @@ func ext۰reflect۰Value۰Set(fr *frame, args []value) value {
 func ext۰reflect۰valueInterface(fr *frame, args []value) value {
 	// Signature: func (v reflect.Value, safe bool) interface{}
 	v := args[0].(structure)
-	return iface{rV2T(v).t, rV2V(v)}
+	t := rV2T(v).t
+	if t == nil {
+		panic(targetPanic{iface{fr.i.runtimeErrorString, "reflect: call of reflect.Value.Interface on zero Value"}})
+	}
+	if rVRO(v) {
+		panic(targetPanic{iface{fr.i.runtimeErrorString, "reflect.Value.Interface: cannot return value obtained from unexported field or method"}})
+	}
+	x := rV2V(v)
+	if _, ok := t.Underlying().(*types.Interface); ok {
+		if it, ok := x.(iface); ok {
+			return it // an interface-kinded Value yields its dynamic value
+		}
+	}
+	return iface{t, copyVal(x)}
 }
 
 func ext۰reflect۰error۰Error(fr *frame, args []value) value {
@@ -585,6 +630,7 @@ func initReflect(i *interpreter) {
 			types.NewField(token.NoPos, r.Pkg, "t", tEface, false), // a lie
 			types.NewField(token.NoPos, r.Pkg, "v", tEface, false),
 			types.NewField(token.NoPos, r.Pkg, "a", tEface, false),
+			types.NewField(token.NoPos, r.Pkg, "ro", types.Typ[types.Bool], false),
 		}, nil))
 	}
 
